@@ -3,6 +3,8 @@
 package type5
 
 import (
+	"github.com/cloudflare/circl/group"
+	"github.com/cloudflare/circl/oprf"
 	. "github.com/cloudflare/pat-go/internal/vspec"
 	"github.com/cloudflare/pat-go/quicwire"
 	"github.com/cloudflare/pat-go/tokens"
@@ -10,6 +12,8 @@ import (
 )
 
 var _ cryptobyte.String
+var _ = group.Ristretto255
+var _ = oprf.SuiteRistretto255
 
 var _ = tokens.SpecTokenInput
 var _ = quicwire.MaxVarint
@@ -110,3 +114,85 @@ func lemmaT5RequestReencode(r *BatchedPrivateTokenRequest, b []byte) {
 	Vassert(len(enc) <= len(b))
 	Vassert(enc[2] == b[2] && len(enc) == 3+quicwire.SpecSizeVarint(uint64(specNe*n))+specNe*n)
 }
+
+// ---------------------------------------------------------------------------
+// Issuer and client of the batched token type 0x0005 (VOPRF over ristretto255).
+
+//@ spec
+func specIssuerOK(key *oprf.PrivateKey) bool {
+	return key != nil && SKSuite(key) == oprf.SuiteRistretto255 && PubCached(key)
+}
+
+//@ func NewBatchedPrivateIssuer(key *oprf.PrivateKey) (i *BatchedPrivateIssuer)
+//@ props C01 C17
+//@ requires key != nil
+//@ ensures i != nil && fresh(i) && i.tokenKey == key
+//@ ensures[C17] PubCached(key)
+//@ assigns ghost(PubCached(key)) when !PubCached(key)
+//@ end
+
+//@ func (i *BatchedPrivateIssuer) TokenKey() (pk *oprf.PublicKey)
+//@ props C01 C17 C18
+//@ requires i.tokenKey != nil && PubCached(i.tokenKey)
+//@ ensures pk != nil && PKVal(pk) == OPRFPub(SKSuite(i.tokenKey), SKVal(i.tokenKey)) && PKSuite(pk) == SKSuite(i.tokenKey)
+//@ assigns none
+//@ end
+
+//@ func (i *BatchedPrivateIssuer) TokenKeyID() (id []byte)
+//@ props C01 C03 C16 C17 C18
+//@ requires i.tokenKey != nil && PubCached(i.tokenKey)
+//@ ensures string(id) == SHA256(OPRFPub(SKSuite(i.tokenKey), SKVal(i.tokenKey))) && len(id) == 32 && fresh(id)
+//@ assigns none
+//@ end
+
+//@ func (iss BatchedPrivateIssuer) Evaluate(req *BatchedPrivateTokenRequest) (resp []byte, err error)
+//@ props C03 C16 C17
+//@ requires req != nil && specIssuerOK(iss.tokenKey)
+//@ ensures err != nil ==> resp == nil
+//@ ensures err == nil ==> fresh(resp)
+//@ assigns none
+//@ alloc 4096 + 256*len(req.BlindedReq)
+//@ loop 0 vars(i int, elements []group.Element, numRequests int)
+//@   invariant 0 <= i && i <= numRequests && len(elements) == numRequests && numRequests == len(req.BlindedReq) && fresh(elements)
+//@   invariant forall(0, i, func(j int) bool { return elements[j] != nil })
+//@ end
+
+//@ func (i BatchedPrivateIssuer) Verify(token tokens.Token) (err error)
+//@ props C03 C10 C16 C17
+//@ requires specIssuerOK(i.tokenKey)
+//@ let input = tokens.SpecTokenInput(token.TokenType, string(token.Nonce), string(token.Context), string(token.KeyID))
+//@ ensures !BlindFails(oprf.SuiteRistretto255, input) ==> (err == nil) == (string(token.Authenticator) == OPRFFull(oprf.SuiteRistretto255, SKVal(i.tokenKey), input))
+//@ ensures BlindFails(oprf.SuiteRistretto255, input) && err == nil ==> string(token.Authenticator) == OPRFFull(oprf.SuiteRistretto255, SKVal(i.tokenKey), input)
+//@ assigns none
+//@ end
+
+//@ spec
+func specStateOK(s BatchedPrivateTokenRequestState) bool {
+	return s.verifier != nil && s.verificationKey != nil && s.request != nil &&
+		VCKey(s.client) == s.verificationKey && VCSuite(s.client) == oprf.SuiteRistretto255 &&
+		FDCount(s.verifier) == len(s.tokenInputs) && FDSuite(s.verifier) == oprf.SuiteRistretto255 &&
+		Forall(0, len(s.tokenInputs), func(k int) bool {
+			return len(s.tokenInputs[k]) == 98 && cap(s.tokenInputs[k]) == 98 && FDInput(s.verifier, k) == string(s.tokenInputs[k])
+		})
+}
+
+// A finalization succeeds only for a response with exactly one evaluated element per requested token.
+//
+//@ func (s BatchedPrivateTokenRequestState) FinalizeTokens(tokenResponseEnc []byte) (toks []tokens.Token, err error)
+//@ props C02 C03 C16
+//@ requires specStateOK(s)
+//@ let resp = string(tokenResponseEnc)
+//@ let l = quicwire.ConsumeVarintValue(string(tokenResponseEnc))
+//@ let k = quicwire.ConsumeVarintLen(tokenResponseEnc[0])
+//@ ensures[C02] err == nil ==> quicwire.ConsumeVarintOK(resp)
+//@ ensures[C02] err == nil ==> int(l) == 32*len(s.tokenInputs)
+//@ ensures[C02] err == nil ==> len(tokenResponseEnc) >= k+int(l)+64
+//@ ensures[C02] err == nil ==> len(toks) == len(s.tokenInputs)
+//@ ensures err != nil ==> toks == nil
+//@ assigns none
+//@ alloc 16*len(tokenResponseEnc) + 256*len(s.tokenInputs) + 4096
+//@ loop 0 vars(i int, elements []group.Element, numElements int, encodedElements []byte, elementLength int)
+//@   invariant 0 <= i && i <= numElements && len(elements) == numElements && fresh(elements)
+//@   invariant elementLength == 32 && len(encodedElements) == 32*numElements
+//@   invariant forall(0, i, func(j int) bool { return elements[j] != nil })
+//@ end
